@@ -166,7 +166,7 @@ theorem step_cb (P : DnsParams) (s : Dns) (e : DnsEv) (he : isResolve e = false)
     · left; simp [callbacks]
     · split
       · left; simp [callbacks]
-      · have := result_cb P { s with connOpen := false }
+      · have := result_cb P { s with connOpen := false, closing := true }
         simp only [callbacks] at this ⊢
         simpa [callbacks] using this
   | reply p =>
@@ -183,12 +183,12 @@ theorem step_cb (P : DnsParams) (s : Dns) (e : DnsEv) (he : isResolve e = false)
     simp only
     split
     · left; simp [callbacks]
-    · exact result_cb P { s with connOpen := false }
+    · exact result_cb P { s with connOpen := false, closing := false }
   | fireTimeout =>
     unfold Dns.step
     simp only
     split
-    · have := result_cb P { s with timeoutArmed := false, connOpen := false }
+    · have := result_cb P { s with timeoutArmed := false, connOpen := false, closing := s.connOpen || s.closing }
       simpa [callbacks] using this
     · left; simp [callbacks]
   | fireRetry =>
@@ -338,6 +338,192 @@ theorem c20_completes_after_last_try (P : DnsParams) (s : Dns) (hp : s.pending =
   rw [if_neg (by simp; omega)]
   simp [hp, callbacks]
 
+
+/-! ### nothing goes on after the completion -/
+
+/-- while no request is pending the retry timer is off and the attempt state is final (a success, all servers
+    used) or nothing is going on at all - so whatever comes late stays in the completion branch -/
+def Quiet (P : DnsParams) (s : Dns) : Prop :=
+  s.pending = false → s.retryArmed = false ∧
+    (s.success = true ∨ P.servers ≤ s.tries ∨ (s.connOpen = false ∧ s.closing = false ∧ s.timeoutArmed = false))
+
+theorem result_quiet (P : DnsParams) (s : Dns)
+    (h : s.pending = false → s.retryArmed = false ∧ (s.success = true ∨ P.servers ≤ s.tries)) :
+    Quiet P (Dns.result P s).1 := by
+  unfold Dns.result Quiet
+  by_cases hb : s.success = false ∧ s.tries < P.servers
+  · rw [if_pos hb]
+    intro hp
+    have := (h hp).2
+    rcases this with h1 | h1
+    · rw [hb.1] at h1; cases h1
+    · omega
+  · rw [if_neg hb]
+    have hfin : s.success = true ∨ P.servers ≤ s.tries := by
+      cases hs : s.success
+      · right; simp [hs] at hb; omega
+      · left; rfl
+    simp only
+    split <;> (intro _; exact ⟨rfl, Or.imp_right Or.inl hfin⟩)
+
+/-- **C20.3e (the request ends at its completion)** `Quiet` holds in every reachable state -/
+theorem c20_quiet_step (P : DnsParams) (s : Dns) (e : DnsEv) (hq : Quiet P s) : Quiet P (Dns.step P s e).1 := by
+  have busy : (s.connOpen = true ∨ s.closing = true ∨ s.timeoutArmed = true) →
+      s.pending = false → s.retryArmed = false ∧ (s.success = true ∨ P.servers ≤ s.tries) := by
+    intro hb hp
+    obtain ⟨h1, h2⟩ := hq hp
+    refine ⟨h1, ?_⟩
+    rcases h2 with h2 | h2 | ⟨a, b, c⟩
+    · exact Or.inl h2
+    · exact Or.inr h2
+    · rcases hb with hb | hb | hb <;> simp_all
+  cases e with
+  | resolve name m =>
+    unfold Dns.step
+    simp only
+    have hr : ∀ (t : Dns), t.pending = true → Quiet P (Dns.result P t).1 :=
+      fun t ht => result_quiet P t (fun h => by rw [ht] at h; cases h)
+    cases name with
+    | none => apply hr; rfl
+    | some n =>
+      simp only
+      by_cases hc : Nat.min (cstr n).length P.maxLen < P.minLen
+      · rw [if_pos hc]; apply hr; rfl
+      · rw [if_neg hc]
+        by_cases hm : (!m) = true
+        · rw [if_pos hm]; apply hr; rfl
+        · rw [if_neg hm]
+          intro h; simp [Dns.doResolve] at h
+  | connected ok =>
+    unfold Dns.step; simp only
+    by_cases hc : (!s.connOpen) = true
+    · rw [if_pos hc]; exact hq
+    · rw [if_neg hc]
+      by_cases ho : ok = true
+      · rw [if_pos ho]; exact hq
+      · rw [if_neg ho]
+        exact result_quiet P _ (busy (Or.inl (by simpa using hc)))
+  | reply p =>
+    unfold Dns.step; simp only
+    by_cases hc : (!s.connOpen) = true
+    · rw [if_pos hc]; exact hq
+    · rw [if_neg hc]
+      have hb := busy (Or.inl (by simpa using hc))
+      split
+      · exact result_quiet P _ hb
+      · exact hq
+      · intro hp; exact ⟨(hb hp).1, Or.inl rfl⟩
+  | disconnected =>
+    unfold Dns.step; simp only
+    by_cases hc : (!s.connOpen && !s.closing) = true
+    · rw [if_pos hc]; exact hq
+    · rw [if_neg hc]
+      refine result_quiet P _ (busy ?_)
+      cases h1 : s.connOpen <;> cases h2 : s.closing <;> simp_all
+  | fireTimeout =>
+    unfold Dns.step; simp only
+    by_cases hc : s.timeoutArmed = true
+    · rw [if_pos hc]
+      exact result_quiet P _ (busy (Or.inr (Or.inr hc)))
+    · rw [if_neg hc]; exact hq
+  | fireRetry =>
+    unfold Dns.step; simp only
+    by_cases hc : s.retryArmed = true
+    · rw [if_pos hc]
+      intro hp
+      have : s.pending = true := by
+        cases h : s.pending
+        · have := (hq h).1; rw [hc] at this; cases this
+        · rfl
+      simp [Dns.doResolve, this] at hp
+    · rw [if_neg hc]; exact hq
+
+theorem c20_quiet_run (P : DnsParams) (es : List DnsEv) (s : Dns) (hq : Quiet P s) :
+    Quiet P (Dns.run P s es).1 := by
+  induction es generalizing s with
+  | nil => exact hq
+  | cons e es ih => unfold Dns.run; exact ih _ (c20_quiet_step P s e hq)
+
+/-- the power-on state is quiet -/
+theorem quiet_init (P : DnsParams) : Quiet P {} := fun _ => ⟨rfl, Or.inr (Or.inr ⟨rfl, rfl, rfl⟩)⟩
+
+theorem result_no_connect (P : DnsParams) (s : Dns) (k : Nat) : DnsObs.connect k ∉ (Dns.result P s).2 := by
+  unfold Dns.result
+  split
+  · simp
+  · simp only; split <;> simp
+
+/-- **C20.3f** in every reachable state, a step that opens a connection to a DNS server (the only way a request is
+    sent) belongs to a request that is still pending: after the completion callback the resolver never
+    connects again, whatever arrives late (disconnect callbacks, replies, timers). -/
+theorem c20_connect_only_when_pending (P : DnsParams) (es : List DnsEv) (e : DnsEv) (k : Nat)
+    (h : DnsObs.connect k ∈ (Dns.step P (Dns.run P {} es).1 e).2) :
+    (Dns.step P (Dns.run P {} es).1 e).1.pending = true := by
+  have hq := c20_quiet_run P es {} (quiet_init P)
+  generalize (Dns.run P {} es).1 = s at h hq ⊢
+  cases e with
+  | resolve name m =>
+    revert h
+    unfold Dns.step
+    simp only
+    cases name with
+    | none => intro h; exact absurd h (result_no_connect P _ k)
+    | some n =>
+      simp only
+      by_cases hc : Nat.min (cstr n).length P.maxLen < P.minLen
+      · rw [if_pos hc]; intro h; exact absurd h (result_no_connect P _ k)
+      · rw [if_neg hc]
+        by_cases hm : (!m) = true
+        · rw [if_pos hm]; intro h; exact absurd h (result_no_connect P _ k)
+        · rw [if_neg hm]; intro _; rfl
+  | connected ok =>
+    revert h
+    unfold Dns.step; simp only
+    by_cases hc : (!s.connOpen) = true
+    · rw [if_pos hc]; simp
+    · rw [if_neg hc]
+      by_cases ho : ok = true
+      · rw [if_pos ho]; simp
+      · rw [if_neg ho]
+        intro h
+        simp only [List.mem_append, List.mem_cons, List.not_mem_nil, or_false, reduceCtorEq, false_or] at h
+        exact absurd h (result_no_connect P _ k)
+  | reply p =>
+    revert h
+    unfold Dns.step; simp only
+    by_cases hc : (!s.connOpen) = true
+    · rw [if_pos hc]; simp
+    · rw [if_neg hc]
+      split
+      · intro h; exact absurd h (result_no_connect P _ k)
+      · simp
+      · simp
+  | disconnected =>
+    revert h
+    unfold Dns.step; simp only
+    by_cases hc : (!s.connOpen && !s.closing) = true
+    · rw [if_pos hc]; simp
+    · rw [if_neg hc]; intro h; exact absurd h (result_no_connect P _ k)
+  | fireTimeout =>
+    revert h
+    unfold Dns.step; simp only
+    by_cases hc : s.timeoutArmed = true
+    · rw [if_pos hc]
+      intro h
+      simp only [List.mem_append, List.mem_cons, List.not_mem_nil, or_false, reduceCtorEq, false_or] at h
+      exact absurd h (result_no_connect P _ k)
+    · rw [if_neg hc]; simp
+  | fireRetry =>
+    revert h
+    unfold Dns.step; simp only
+    by_cases hc : s.retryArmed = true
+    · rw [if_pos hc]
+      intro _
+      cases hp : s.pending
+      · have := (hq hp).1; rw [hc] at this; cases this
+      · simp [Dns.doResolve, hp]
+    · rw [if_neg hc]; simp
+
 /-! ### instantiation and non-vacuity -/
 
 theorem c20_in_bounds_repo (R : Nat) (hR : 14 ≤ R) (p : Bytes) :
@@ -352,5 +538,16 @@ example : (dnsRecv Gen.dnsParams 29
 example : (dnsRecv Gen.dnsParams 29
     ([0,43, 0,1, 0x81,0x80, 0,1, 0,1, 0,0, 0,0, 5,115,117,112,108,97, 3,111,114,103, 0, 0,1, 0,1,
       0xc0,0x0c, 0,1, 0,1, 0,0,0,60, 0,16, 1,2,3,4])).1 = .ignore := by decide
+
+/-- the history that used to go on after its completion: a reply with an inconsistent length prefix (retry
+    timer armed), then an acceptable reply on the same connection, the disconnect callback with the completion
+    callback - and now the retry timer is off -/
+example :
+    let good : Bytes := [0,43, 0,1, 0x81,0x80, 0,1, 0,1, 0,0, 0,0, 5,115,117,112,108,97, 3,111,114,103, 0, 0,1, 0,1,
+      0xc0,0x0c, 0,1, 0,1, 0,0,0,60, 0,4, 1,2,3,4]
+    let r := Dns.run Gen.dnsParams {} [.resolve (some [115,117,112,108,97,46,111,114,103]) true, .reply (0 :: 44 :: good.drop 2),
+      .connected true, .reply good, .disconnected, .fireRetry]
+    r.2 = [.disconnect, .connect 0, .sent true 29, .disconnect, .callback (some [1, 2, 3, 4]), .notArmed] ∧
+      r.1.retryArmed = false := by decide
 
 end SuplaVerif.C20
